@@ -137,6 +137,8 @@ pub struct MemCase {
     /// and the address register then gets its final value by 1: being rewritten, 2: an `add`,
     /// 3: the return value of a helper call (base register r0)
     pub pre_same: u8,
+    /// the stored / added value is r10 itself (C11 only: what is stored is an address)
+    pub val_r10: bool,
 }
 
 pub static RET_PTR: std::sync::atomic::AtomicU64 = std::sync::atomic::AtomicU64::new(0);
@@ -167,8 +169,10 @@ pub fn program(c: &MemCase, pkt_addr: u64, pkt_len: usize) -> Option<Vec<I>> {
     let opc = opcode(c.acc, c.w);
     let mut p = vec![];
     // value register for stx / xadd: r7 (or r6 when the base is r7)
-    let vreg = if b == 7 { 6 } else { 7 };
-    p.extend(isa::lddw(vreg, STORE_REG));
+    let vreg = if c.val_r10 { 10 } else if b == 7 { 6 } else { 7 };
+    if !c.val_r10 {
+        p.extend(isa::lddw(vreg, STORE_REG));
+    }
     let set_base = |p: &mut Vec<I>, reg: u8, t: Target, off: i64| match t {
         Target::Abs(ea) => {
             p.extend(isa::lddw(reg, ea.wrapping_sub(off as u64)));
@@ -374,7 +378,7 @@ fn case_json(c: &MemCase, l: &Layout, eng: Eng, a: &Arena) -> Value {
         }
         json!({"abs": format!("{ea:#x}")})
     };
-    json!({"kind":"mem","eng":eng.name(),"acc":format!("{:?}", c.acc),"w":c.w,"off":c.off,"base":c.base,"pre_narrow":c.pre_narrow,"pre_store":c.pre_store,"r10_shift":c.r10_shift,"pre_same":c.pre_same,
+    json!({"kind":"mem","eng":eng.name(),"acc":format!("{:?}", c.acc),"w":c.w,"off":c.off,"base":c.base,"pre_narrow":c.pre_narrow,"pre_store":c.pre_store,"r10_shift":c.r10_shift,"pre_same":c.pre_same,"val_r10":c.val_r10,
            "target": match c.t { Target::Abs(ea) => rel(ea), Target::Stack(d) => json!({"rel":"stack","delta":d}) },
            "layout": {"vm": vm::kind_name(l.kind), "pkt": l.pkt_len, "mb": l.mb_len, "allowed": l.allowed}})
 }
@@ -701,7 +705,9 @@ pub fn c11_check(s: &mut Sink, c: &MemCase, l: &Layout, a: &Arena) {
                         s.violation(&format!("cranelift/{class}/loaded-value-mismatch"), format!("loaded {v:#x}, memory holds {want:#x}"), rp());
                     }
                 }
-                (Acc::St | Acc::Stx | Acc::Xadd, Target::Abs(_)) => {
+                (Acc::St | Acc::Stx | Acc::Xadd, Target::Abs(_)) if !c.val_r10 => {
+                    // (with r10 as the value the stored bytes are an address: they may coincide with
+                    // what is there)
                     if after == before {
                         s.violation(&format!("cranelift/{class}/store-not-performed"), "an in-bounds store left memory unchanged".into(), rp());
                     }
@@ -847,7 +853,10 @@ pub fn run(s: &mut Sink, cranelift: bool) {
                         if matches!(acc, Acc::LdAbs) && (off != 0 || base != 6) {
                             continue;
                         }
-                        let c = MemCase { acc: *acc, w: *w, t: *t, off, base, pre_narrow: false, pre_store: None, r10_shift: 0, pre_same: 0 };
+                        let c = MemCase { acc: *acc, w: *w, t: *t, off, base, pre_narrow: false, pre_store: None, r10_shift: 0, pre_same: 0, val_r10: false };
+                        if cranelift && matches!(acc, Acc::Stx | Acc::Xadd) && base == 6 {
+                            c11_check(s, &MemCase { val_r10: true, ..c }, l, &a);
+                        }
                         // the same instruction on a safe address first, then the address register moves
                         if base == 6 && !matches!(acc, Acc::LdAbs) && (off == 0 || off == 8 || thorough) {
                             for ps in 1..=3u8 {
@@ -920,7 +929,7 @@ pub fn replay(v: &Value) -> Vec<String> {
         "LdAbs" => Acc::LdAbs,
         _ => Acc::LdInd,
     };
-    let c = MemCase { acc, w: v["w"].as_u64().unwrap() as u8, t: target_from_json(v, &a), off: v["off"].as_i64().unwrap() as i16, base: v["base"].as_u64().unwrap() as u8, pre_narrow: v["pre_narrow"].as_bool().unwrap_or(false), pre_store: v["pre_store"].as_u64().map(|x| x as u8), r10_shift: v["r10_shift"].as_i64().unwrap_or(0) as i32, pre_same: v["pre_same"].as_u64().unwrap_or(0) as u8 };
+    let c = MemCase { acc, w: v["w"].as_u64().unwrap() as u8, t: target_from_json(v, &a), off: v["off"].as_i64().unwrap() as i16, base: v["base"].as_u64().unwrap() as u8, pre_narrow: v["pre_narrow"].as_bool().unwrap_or(false), pre_store: v["pre_store"].as_u64().map(|x| x as u8), r10_shift: v["r10_shift"].as_i64().unwrap_or(0) as i32, pre_same: v["pre_same"].as_u64().unwrap_or(0) as u8, val_r10: v["val_r10"].as_bool().unwrap_or(false) };
     let mut s = Sink::new("replay", Tier::Quick, 0, 1, None, None, 3600);
     if v["eng"] == "cranelift" {
         c11_check(&mut s, &c, &l, &a);
